@@ -45,7 +45,7 @@ fn stress_case<F: Fam>(spec: &CaseSpec, prop: &'static str) {
     with_acc(|a| a.current_case = Some(light_case(spec, inst.as_ref())));
     let out = run_solver(&inst, &spec.cfg);
     if std::env::var("VH_DIAG").is_ok() && inst.nvars() >= 20 {
-        eprintln!("DIAG fam={} n={} dd={} cache={} fringe={:?} width={:?} threads={} -> pops={} max_fringe={} polls={} refusals={} cutoff_fired={} wall={:?}", spec.family, inst.nvars(), spec.cfg.dd.name(), spec.cfg.cache, spec.cfg.fringe, spec.cfg.width, spec.cfg.par.as_ref().map_or(0, |p| p.n0), out.fringe.pops, out.fringe.max_len, out.polls, out.cache.must_explore_refusals, out.cutoff_fired, out.wall);
+        eprintln!("DIAG fam={} n={} dd={} cache={} fringe={:?} width={:?} threads={} -> pops={} max_fringe={} polls={} refusals={} max_refusal_run={} cutoff_fired={} wall={:?}", spec.family, inst.nvars(), spec.cfg.dd.name(), spec.cfg.cache, spec.cfg.fringe, spec.cfg.width, spec.cfg.par.as_ref().map_or(0, |p| p.n0), out.fringe.pops, out.fringe.max_len, out.polls, out.cache.must_explore_refusals, out.cache.max_refusal_run, out.cutoff_fired, out.wall);
     }
     with_acc(|a| {
         a.current_case = None;
